@@ -115,7 +115,7 @@ def run(ctx):
     ctx.trusted.append("C10 harness counts parse_sequence calls by wrapping vc2_conformance.decoder.stream.parse_sequence in-process; "
                        "level CONSTRAINT table made permissive as in C01")
     maxseq = ctx.pick(3, 4)
-    n_streams = ctx.pick(700, 6000)
+    n_streams = ctx.pick(1500, 8000)
     pool_ok = [make_sequence(rng, True) for _ in range(ctx.pick(40, 200))]
     pool_bad = [make_sequence(rng, False) for _ in range(ctx.pick(30, 150))]
     alone = {}
